@@ -70,6 +70,19 @@ def classify_stall(text, pkg, run):
         return ClientStall("client-deadlock:" + ",".join(w.split("/")[-1] for w in where)[:120],
                            "a scenario of %s never ended: %d goroutine(s) of the client are blocked for ever on a mutex of the client (%s) and nothing "
                            "of the harness holds them up:\n%s" % (run, len(mine), ", ".join(where), "\n\n".join(m[:900] for m in mine[:3])))
+    # an explosion of goroutines of the client (tens of thousands started by the same function of the client): a loop of the
+    # client that spawns without waiting. No driver starts goroutines in a loop; the scenario cannot end because the client
+    # never comes to rest.
+    starters = {}
+    for g in gor:
+        m = re.search(r"created by (github\.com/tsuna/gohbase[\w./()*]*)", g)
+        if m and "zz_verif" not in g.split("created by")[-1] and "verifsim" not in m.group(1):
+            starters[m.group(1)] = starters.get(m.group(1), 0) + 1
+    if starters:
+        fn, n = max(starters.items(), key=lambda kv: kv[1])
+        if n >= 5000:
+            return ClientStall("client-goroutine-explosion:" + fn.split("/")[-1], "a scenario of %s never ended: %d goroutines of the client started by %s "
+                               "are alive at once (%d goroutines in all) - a loop of the client that starts goroutines without ever waiting" % (run, n, fn, len(gor)))
     return MachineryError("%s -run %s: a scenario did not end within the real-time limit and no dead-lock of the client explains it:\n%s"
                           % (pkg, run, text[:3000]))
 
